@@ -131,6 +131,12 @@ def run(ctx) -> None:
                     directed[f"complement:{c}@small"] = small
                     selections.append((f"complement:{c}@small", ["--enable-all", "--disable", c], [x for x in codes if x != c]))
             res.bump("directed_singletons", len(sus))
+            # every check alone on the small files (cheap: a dozen files): a check's report must not depend on which OTHER checks
+            # are loaded — in particular not through what the visitor does differently when more node types have subscribers
+            for c in codes:
+                if f"single:{c}@small" not in directed and c not in singles:
+                    directed[f"single:{c}@small"] = small
+                    selections.append((f"single:{c}@small", ["--disable-all", "--enable", c], [c]))
         except Exception as e:  # noqa: BLE001
             res.notes.append(f"directed singleton selection skipped: {type(e).__name__}: {e}")
         for c in singles:
